@@ -1,5 +1,5 @@
 SPECIFICATION Spec
-CONSTANTS Keys = {"a", "b", "c"} Vals = {"x", "y"} MaxInit = 3 Depth = 4
+CONSTANTS Keys = {"a", "A", "b"} Vals = {"x", "y"} MaxInit = 3 Depth = 4
 PROPERTY SetIsMapUpdate
 VIEW View
 CHECK_DEADLOCK FALSE
